@@ -54,6 +54,25 @@ CHECKS = {
         note=TB + "Modelled, not verified: one client handle at a time; concurrency on the state field; device.manager.cpp/loader.c are "
              "replaced by a stub handing out the mock driver. Stated reading for storage: 'started' = the state the driver last returned. Axioms: none.",
         technique="Coq proof by induction over call/response histories of a HAL model; differential vs the real HAL with a freeing mock driver under ASan"),
+    "C05": dict(
+        family="layout", design="6.5",
+        text="Machine-checked proof over an executable model of the frame layout (components.c: bytes_of_type/bytes_of_image; source.c / filter.c "
+             "size rounding and header fill; frame_iterator_next; vfslice_split_at_delay_ms with the clock comparison as a parameter; the sink's "
+             "consumed-byte count) joined to the ring model of channel.c (fam/ring): the size field is 96 + align8(image bytes), a multiple of 8, "
+             "for every shape and type code (C05_size_field, C05_frame_sizes); over every capacity and every well-formed history with "
+             "frame-sized writes, head, high, every hold, every region and slice offset and length are multiples of 8 (C05_offsets_aligned, "
+             "induction over histories); every slice handed to a reader that consumes whole frames (the sink always: C05_split_boundary; the "
+             "client when it consumes frame-boundary counts) is the concatenation of whole committed frames, stepping by the size field visits "
+             "exactly their headers and lands exactly on the slice end, and a mapped packet stays whole until unmapped (C05_packet_whole, "
+             "C05_packet_stays_whole, C05_holds_on_frame_boundaries). Tied to the code on every run by (i) a differential of the real "
+             "components.c / frame_iterator.c / vfslice.c / channel.c against the extracted model for all type codes x shapes with every residue "
+             "mod 8 x mixed packets x every split position, and (ii) runs of the real source.c, sink.c, filter.c under the deterministic scheduler "
+             "with a recording storage and a monitor thread, every packet walked by an independent oracle.",
+        note=TB + "Modelled, not verified: the ring base address is 8-aligned (allocator); the header fill (source.c:87, filter.c:121) is a model line "
+             "exercised by the scheduler runs; a client that consumes a count that stops inside a frame is outside the statement (the property is "
+             "read for frame-boundary consumption); C05's 'shape is the one the camera reported' is checked on every packet by the oracle and "
+             "proved in the pipeline model (C04 theorems on frame identity). Axioms: none.",
+        technique="Coq proof of size/alignment arithmetic and of a frame-boundary invariant over the ring model (induction over histories); differential of the layout functions + scheduler runs of source/sink/filter with a packet-walking oracle"),
     "C10": dict(
         family="average", design="6.10",
         text="Machine-checked proof (Coq + Flocq binary32) over an executable model of filter.c's accumulate/normalize and of the "
